@@ -152,7 +152,19 @@ MultiNamedSc == C("multinamedsc", <<Named(Two(R("r1", SC, 0, "a", "multierr", FA
 MultiGrouped == C("multigrouped", <<Grouped(Two(R("r1", SG, 0, "a", "multi", FALSE, <<>>), 1)),
                                     R("r2", SC, 2, "a", "ctorerr", TRUE, <<PG("S0"), PG("S1")>>)>>)
 MultiGroupedSc == C("multigroupedsc", <<Grouped(Two(R("r1", SC, 0, "a", "multierr", FALSE, <<>>), 1))>>)
-CfgForms == {OutKG, OutKGSing, OutKGTr, MultiNamed, MultiNamedSc, MultiGrouped, MultiGroupedSc}
+\* result objects whose two fields have the SAME type: unkeyed + group member, unkeyed + named
+OutKGSame == C("outkgsame", <<Two(R("r1", SC, 1, "a", "outkg", FALSE, <<>>), 1),
+                              R("r2", SC, 2, "a", "ctorerr", TRUE, <<P("S1"), PG("S1")>>)>>)
+OutKGSameTr == C("outkgsametr", <<Two(R("r1", TR, 1, "a", "outkg", FALSE, <<>>), 1),
+                                  R("r2", TR, 2, "a", "ctorerr", TRUE, <<P("S1"), PG("S1")>>)>>)
+OutKGSameSing == C("outkgsamesing", <<Two(R("r1", SG, 1, "a", "outkg", FALSE, <<>>), 1),
+                                      R("r2", SG, 2, "a", "ctorerr", TRUE, <<P("S1"), PG("S1")>>)>>)
+OutKNSame == C("outknsame", <<Two(R("r1", SC, 1, "a", "outkn", FALSE, <<>>), 1),
+                              R("r2", TR, 2, "a", "ctorerr", TRUE, <<P("S1"), PK("S1")>>)>>)
+OutKNSameTr == C("outknsametr", <<Two(R("r1", TR, 1, "a", "outkn", FALSE, <<>>), 1),
+                                  R("r2", TR, 2, "a", "ctorerr", TRUE, <<P("S1"), PK("S1")>>)>>)
+CfgForms == {OutKG, OutKGSing, OutKGTr, MultiNamed, MultiNamedSc, MultiGrouped, MultiGroupedSc,
+             OutKGSame, OutKGSameTr, OutKGSameSing, OutKNSame, OutKNSameTr}
 
 \* more shapes suggested by independent seeded changes: a transient with two aliases; a singleton with an optional
 \* singleton dependency that has dependencies itself; a singleton consuming a group with a transient member that needs
